@@ -12,6 +12,13 @@ mod c10;
 mod c12;
 mod c13;
 mod c14;
+mod c16;
+mod c17;
+mod cli;
+mod c18;
+mod c19;
+mod c20;
+mod c20w;
 mod c11;
 mod layers;
 mod gens;
@@ -29,6 +36,9 @@ fn main() {
         std::process::exit(2);
     }
     let prop = args[1].to_uppercase();
+    if args[1] == "C20-WORKER" {
+        std::process::exit(c20w::worker_main(&args[2..]));
+    }
     if prop == "C08-WORKER" {
         c08::worker(&args[2], &args[3]);
         return;
@@ -67,6 +77,11 @@ fn main() {
         "C12" => c12::run(&ctx),
         "C13" => c13::run(&ctx),
         "C14" => c14::run(&ctx),
+        "C16" => c16::run(&ctx),
+        "C17" => c17::run(&ctx),
+        "C18" => c18::run(&ctx),
+        "C19" => c19::run(&ctx),
+        "C20" => c20::run(&ctx),
         _ => {
             eprintln!("unknown property {prop}");
             std::process::exit(2);
